@@ -594,6 +594,8 @@ def main():
     if "--tier" in args:
         tier = args[args.index("--tier") + 1]
     private_build_dir(prop, tier)
+    # depth of the wt_client replay search (tools/replay.py): one operation less in the quick tier
+    os.environ.setdefault("VERIF_WT_DEPTH", "4" if tier == "quick" else "5")
     seed = int(os.environ.get("VERIF_SEED", "0") or 0)
     t0 = time.time()
     units = [u for u in load_units()["units"] if prop in u.get("serves", [])]
